@@ -45,6 +45,9 @@ pub enum Level {
     Framing,
     /// Framing + every operand word substituted + opcode substitutions + duplication + header faults
     Full,
+    /// for very long instructions: the unmodified seed, word count +-1, cuts at the last byte / last word / half,
+    /// the whole instruction twice
+    Scale,
 }
 
 /// all single-point corruptions of `s` (k = 0, the unmodified seed, is included as the first element)
@@ -56,6 +59,34 @@ pub fn mutants(s: &Seed, level: Level) -> Vec<Mutant> {
     let n = s.target_wc;
     let first = s.words[t];
     let opcode = first & 0xFFFF;
+    // the whole target instruction twice in a row, and once more after its successor (A A .. / A B A): a consumer of
+    // the stream that merges or skips a repeated instruction is seen
+    {
+        let mut w = s.words.clone();
+        let copy: Vec<u32> = s.words[t..t + n].to_vec();
+        w.splice(t + n..t + n, copy.iter().copied());
+        out.push(Mutant { what: "dup-inst".into(), bytes: model::words_to_bytes(&w) });
+        if t + n < s.words.len() {
+            let next_n = ((s.words[t + n] >> 16) as usize).max(1).min(s.words.len() - t - n);
+            let mut w = s.words.clone();
+            w.splice(t + n + next_n..t + n + next_n, copy.iter().copied());
+            out.push(Mutant { what: "dup-inst-after-next".into(), bytes: model::words_to_bytes(&w) });
+        }
+    }
+    if level == Level::Scale {
+        for cut in [bytes.len() - 1, bytes.len() - 4, 4 * t + 2 * n, 4 * t + 4] {
+            out.push(Mutant { what: format!("truncate@{}", cut), bytes: bytes[..cut.min(bytes.len())].to_vec() });
+        }
+        for wc in [n as u32 - 1, n as u32 + 1] {
+            if wc == 0 || wc > 0xFFFF {
+                continue;
+            }
+            let mut w = s.words.clone();
+            w[t] = (wc << 16) | opcode;
+            out.push(Mutant { what: format!("wc={}", wc), bytes: model::words_to_bytes(&w) });
+        }
+        return out;
+    }
     // truncate at every byte from the start of the target on (earlier truncations hit the prefix, covered by its own seeds),
     // and at every byte of the header
     let from = if level == Level::Full { 4 * t } else { 4 * t };
